@@ -455,6 +455,39 @@ func exploreNode(c *vx.Ctx, props string, maxDev int, bfsDepth int, st *exploreS
 		}
 	}
 	c.Extra["engine_slow_strategy_executions"] = nSlow
+	// Two stops in consecutive heights: the process is stopped once the commit of a height is in (before the driver
+	// answered, in commit wait with the finalization stored, or after the commit-wait timer), restarted, taken through
+	// the next height to one of the same three points, stopped and restarted again, and then runs two more heights
+	// (a restart that meets what the previous restart left behind: heights skipped because their finalization is
+	// stored, positions never recorded). The script after a restart is written out afresh, because the restarted
+	// state machine re-enters its round and the scripted answers would otherwise be off by one.
+	nRR := 0
+	var rrJobs []vx.Job
+	round := nodeRound("A")
+	stops := []int{6, 7, 8} // events of a round delivered before the stop: ...V:c:oh:A | ...DR | ...TF
+	for pos, ev := range script {
+		if ev != "DR" {
+			continue
+		}
+		start := pos - 6 // the round's first event
+		if start < 0 || script[start] != "SR" {
+			continue
+		}
+		for _, s1 := range stops {
+			for _, s2 := range stops {
+				h := append([]string{}, script[:start+s1]...)
+				h = append(h, "Restart")
+				h = append(h, round[:s2]...)
+				h = append(h, "Restart")
+				h = append(h, round...)
+				h = append(h, round...)
+				rrJobs = append(rrJobs, vx.Job{Exec: "node", Hist: h, Args: map[string]string{"props": props, "mode": "raw", "seed": "0"}})
+				nRR++
+			}
+		}
+	}
+	jobs = append(jobs, rrJobs...)
+	c.Extra["engine_double_restart_executions"] = nRR
 	c.Extra["engine_script_len"] = len(script)
 	c.Extra["engine_alphabet_full"] = len(nodeAlphabet("full"))
 	c.Extra["engine_single_deviations"] = len(singles)
